@@ -793,11 +793,11 @@ func stringVarValuesFor(ke *kindEval, body *ast.BlockStmt, expr ast.Expr, p okPa
 func ruleC06Dispatch(c *ctx.Ctx, r *core.Reporter) {
 	r.Begin("C06.dispatch", "F-TABLE", "64-bit and complex operators reach the matching prelude helper with the matching mode flag", 8)
 	want := []struct{ path, prefix, descr string }{
-		{"e.Op:token.MUL", "$mul64(", "64-bit * uses $mul64"},
-		{"e.Op:token.QUO", "$div64(⟨0⟩, ⟨1⟩, false)", "64-bit / uses $div64 with returnRemainder=false"},
-		{"e.Op:token.REM", "$div64(⟨0⟩, ⟨1⟩, true)", "64-bit % uses $div64 with returnRemainder=true"},
-		{"e.Op:token.SHL", "$shiftLeft64(", "64-bit << uses $shiftLeft64"},
-		{"e.Op:token.SHR", "$shiftRight⟨0⟩(", "64-bit >> uses $shiftRightInt64/$shiftRightUint64 selected by the operand type"},
+		{"_.Op:token.MUL", "$mul64(", "64-bit * uses $mul64"},
+		{"_.Op:token.QUO", "$div64(⟨0⟩, ⟨1⟩, false)", "64-bit / uses $div64 with returnRemainder=false"},
+		{"_.Op:token.REM", "$div64(⟨0⟩, ⟨1⟩, true)", "64-bit % uses $div64 with returnRemainder=true"},
+		{"_.Op:token.SHL", "$shiftLeft64(", "64-bit << uses $shiftLeft64"},
+		{"_.Op:token.SHR", "$shiftRight⟨0⟩(", "64-bit >> uses $shiftRightInt64/$shiftRightUint64 selected by the operand type"},
 	}
 	// templates of translateExpr whose case path is BinaryExpr / e.Op:X and which sit in the first (64-bit) operator switch
 	var cands []*tmpl.Template
@@ -817,7 +817,7 @@ func ruleC06Dispatch(c *ctx.Ctx, r *core.Reporter) {
 	}
 	// the SHR helper suffix comes from toJavaScriptType(basic)
 	for _, t := range cands {
-		if t.CasePath[1] == "e.Op:token.SHR" && strings.HasPrefix(t.Text, "$shiftRight⟨0⟩(") {
+		if t.CasePath[1] == "_.Op:token.SHR" && strings.HasPrefix(t.Text, "$shiftRight⟨0⟩(") {
 			args := t.FmtArgs()
 			ok := len(args) > 0 && exprStr(args[0]) == "toJavaScriptType(basic)"
 			r.Check(ok, "dispatch64:SHR-suffix", c.Pos(t.Pos), "the signedness suffix of $shiftRight is toJavaScriptType(basic)")
@@ -826,7 +826,7 @@ func ruleC06Dispatch(c *ctx.Ctx, r *core.Reporter) {
 	// complex QUO
 	found := ""
 	for _, t := range cands {
-		if t.CasePath[1] == "e.Op:token.QUO" && strings.HasPrefix(t.Text, "$divComplex(") {
+		if t.CasePath[1] == "_.Op:token.QUO" && strings.HasPrefix(t.Text, "$divComplex(") {
 			found = c.Pos(t.Pos)
 		}
 	}
@@ -836,7 +836,7 @@ func ruleC06Dispatch(c *ctx.Ctx, r *core.Reporter) {
 		ok := false
 		site := ""
 		for _, t := range cands {
-			if t.CasePath[1] == "e.Op:"+op {
+			if t.CasePath[1] == "_.Op:"+op {
 				nh, nl := 0, 0
 				for _, h := range t.Holes {
 					if h.Verb == 'h' {
@@ -867,7 +867,7 @@ func ruleC06Div0(c *ctx.Ctx, r *core.Reporter) {
 			continue
 		}
 		last := t.CasePath[len(t.CasePath)-1]
-		if last != "e.Op:token.QUO" && last != "e.Op:token.REM" {
+		if last != "_.Op:token.QUO" && last != "_.Op:token.REM" {
 			continue
 		}
 		// the integer templates of the small-kind switch: contain `/` or `%` applied to two holes
@@ -882,7 +882,7 @@ func ruleC06Div0(c *ctx.Ctx, r *core.Reporter) {
 		}
 		// float templates: `⟨⟩ / ⟨⟩` only; integer templates are the ones with a temporary (_q / _r)
 		isInt := strings.Contains(t.Text, "===")
-		if last == "e.Op:token.REM" {
+		if last == "_.Op:token.REM" {
 			isInt = true
 		}
 		if !isInt {
